@@ -171,10 +171,13 @@ func evalC17(c *Ctx, cs *TGCase, vr map[string]*gen.VRes) (string, []int) {
 				return "", nil
 			}
 			c.Eval(1)
-			if pr.Verdict == "crash" || pr.Verdict == "loop" || pr.Verdict == "nilreturn" {
-				c.Exclude("parse ended in " + pr.Verdict + " (C06's business)")
+			if pr.Verdict == "loop" {
+				c.Exclude("parse ended in a reduction loop (C06's business)")
 				continue
 			}
+			// a parse that ends in a crash is C06's business, but what it printed
+			// before must still be a legal run
+			abnormal := pr.Verdict == "crash" || pr.Verdict == "nilreturn"
 			bad := func(format string, a ...interface{}) (string, []int) {
 				return fmt.Sprintf("variant %s, input %s: ", v.Name, inputNames(s, in)) + fmt.Sprintf(format, a...) + "\ntrace output:\n" + clip(pr.Out, 1500), in
 			}
@@ -293,6 +296,10 @@ func evalC17(c *Ctx, cs *TGCase, vr map[string]*gen.VRes) (string, []int) {
 					continue
 				}
 				return bad("line %d is neither a shift nor a reduce line: %q", li+1, line)
+			}
+			if abnormal {
+				c.Class("trace-prefix-of-abnormal-run-checked")
+				continue
 			}
 			if pendingGoto >= 0 {
 				return bad("the trace ends after a reduce line without the push of its goto state")
